@@ -73,6 +73,19 @@ def gen(seed, tier):
             p = r.choice(PRECS)
             v = r.choice([r.uniform(-1e6, 1e6), r.uniform(-1, 1), r.gauss(0, 1e3), r.uniform(-1e12, 1e12), struct.unpack('>d', struct.pack('>Q', r.getrandbits(64)))[0]])
             cases.append('RTD %d %s %s %s' % (n, s, db(v), db(p)))
+    # the free functions SetBufNByte[U]Double (only the 8-byte one maps N2kDoubleNA to the reserved code) and the setters with a caller-chosen
+    # UndefVal (seed C06-12: NA reaches SetBuf8ByteDouble only this way)
+    for (n, s) in WIDTHS:
+        for p in [1e-16, 1e-7, 0.01, 1.0]:
+            for v in [NA, nextafter(NA, 0), 0.0, -0.0, 1.0, -1.0, 123.456, math.nan, math.inf, -1e30, 2.0 ** 63]:
+                cases.append('SETB %d %s %s %s' % (n, s, db(v), db(p)))
+                for u in [NA, 0.0, -0.0, -1.0, 123.456, math.nan, math.inf]:
+                    cases.append('RTU %d %s %s %s %s' % (n, s, db(v), db(p), db(u)))
+        for _ in range(20 if not thorough else 1000):
+            p = r.choice(PRECS)
+            v = r.choice([r.uniform(-1e6, 1e6), r.uniform(-1, 1), NA, 0.0])
+            cases.append('SETB %d %s %s %s' % (n, s, db(v), db(p)))
+            cases.append('RTU %d %s %s %s %s' % (n, s, db(v), db(p), db(r.choice([v, NA, 0.0, 7.5]))))
     # getters: bounds.  every read offset against every payload length (thorough) / a grid that includes every boundary (quick)
     for (n, s) in WIDTHS:
         for datalen in (range(0, 224) if thorough else list(range(0, 12)) + [100, 221, 222, 223]):
@@ -127,9 +140,19 @@ def oracle(case, res):
     t = case.split()
     if res.startswith('crash'):
         return 'undefined-behaviour:%s %s' % (t[0], res)
-    if t[0] in ('RTD', 'SETD'):
+    if t[0] in ('RTD', 'SETD', 'SETB', 'RTU'):
         n, s, v, p = int(t[1]), t[2], bd(t[3]), bd(t[4])
         rs = res.split()
+        # which value means 'not available' for this call, and what it reads back as:
+        #   Add..Double(v, precision): N2kDoubleNA;  Add..Double(v, precision, UndefVal): UndefVal (IEEE ==), and for the 8-byte field also
+        #   N2kDoubleNA (SetBuf8ByteDouble knows it);  the free functions SetBuf..Double: only the 8-byte one has a 'not available' input
+        NAv, back = NA, db(NA)
+        if t[0] == 'RTU':
+            u = bd(t[5])
+            back = 'nan' if math.isnan(u) else db(u)
+            NAv = u if (v == u) else (NA if n == 8 else None)
+        elif t[0] == 'SETB':
+            NAv = NA if n == 8 else None
         stored = bytes.fromhex(rs[0])
         if len(stored) != n:
             return 'width:%d bytes stored for a %d byte field' % (len(stored), n)
@@ -137,10 +160,10 @@ def oracle(case, res):
         L, O = lo(n, s), orc(n, s)
         na_u = (O + 1) & ((1 << (8 * n)) - 1)
         or_u = O & ((1 << (8 * n)) - 1)
-        if v == NA:
+        if NAv is not None and v == NAv:
             if code_u != na_u:
                 return 'na:NA not stored as the NA code'
-            if t[0] == 'RTD' and rs[1] != db(NA):
+            if t[0] in ('RTD', 'RTU') and rs[1] != back:
                 return 'na:NA code does not read back as NA'
             return None
         if code_u == na_u:
@@ -159,7 +182,7 @@ def oracle(case, res):
         if L <= q <= O - 1:
             if code_u == or_u and q < O - 2:
                 return 'quantise:in-range value stored as the out-of-range code (n=%d %s)' % (n, s)
-            if t[0] == 'RTD':
+            if t[0] in ('RTD', 'RTU'):
                 if rs[1] == 'nan':
                     return 'roundtrip:in-range value reads back as NaN'
                 rv = bd(rs[1])
